@@ -468,6 +468,10 @@ func (m Mesh) ScanPrimitivesParallelWithPoolSize(size int, f func(i int, p Primi
 	var wg sync.WaitGroup
 
 	totalWork := m.PrimitiveCount()
+	if totalWork < 0 {
+		// a line strip without indices reports -1 primitives; nothing to scan
+		totalWork = 0
+	}
 	workSize := int(math.Floor(float64(totalWork) / float64(size)))
 	for i := 0; i < size; i++ {
 		wg.Add(1)
